@@ -1,4 +1,5 @@
 import CacheVerif.Proofs.ProtoLocks
+import CacheVerif.Proofs.ProtoHW
 import CacheVerif.Props.C11
 import CacheVerif.Props.C01
 /-!
@@ -81,5 +82,64 @@ theorem once_winner (m : AMap K V) (k : K) (hk : m.get k = none) (v : V) (vs : L
   exact ⟨rfl, hget⟩
 
 end seq
+
+/-! ### concurrent racers, through the linearization log (M4a, `Proofs/ProtoHW.lean`)
+
+Every run of M4a has one linearization log that is a legal builtin-map history, in which every completed writing call
+occurs exactly once with the result it returned (`C03_C04_log_legal_state`, `C03_C04_writer_once`).  So what concurrent
+`LoadOrStore` / `LoadOrCompute` racers on one key may return is what a *legal log* allows: -/
+section racers
+open Proofs.ProtoHW Proofs.ProtoLin Model.Proto
+
+variable {K V : Type} [DecidableEq K]
+
+/-- `e` is a get-or-create call on `k` (`LoadOrStore` / `LoadOrCompute`: loads if present, never deletes) -/
+def IsGetOrCreate (k : K) (e : LinE K V) : Prop :=
+  ∃ f co, e.op = .dc k f true co ∧ (f none).2 = false
+
+/-- **exactly one winner** in any legal history: if a stretch of the log consists of get-or-create calls on a key
+that is absent before it, then the first of them stored its value and reports "not loaded", and every later one
+reports "loaded" and returns that same value -/
+theorem racers_one_winner (m : K → Option V) (k : K) (hk : m k = none) (e : LinE K V) (rest : List (LinE K V))
+    (hall : ∀ x ∈ e :: rest, IsGetOrCreate k x) (hleg : Legal m (e :: rest)) :
+    ∃ f co v, e.op = .dc k f true co ∧ v = (f none).1 ∧ e.res = .val (some v) co ∧
+      (∀ x ∈ rest, ∃ f' co', x.op = .dc k f' true co' ∧ x.res = .val (some v) (!co')) ∧
+      specFold m (e :: rest) k = some v := by
+  obtain ⟨f, co, hop, hnd⟩ := hall e (List.mem_cons_self ..)
+  simp only [Legal] at hleg
+  obtain ⟨hres, hrest⟩ := hleg
+  have h1 : specStep m e.op = (fun k' => if k' = k then some (f none).1 else m k', .val (some (f none).1) co) := by
+    rw [hop]; simp [specStep, specDc, hk, hnd]
+  rw [h1] at hres hrest
+  refine ⟨f, co, (f none).1, hop, rfl, hres.symm, ?_⟩
+  -- every later get-or-create call finds the winner's value
+  have key : ∀ (l : List (LinE K V)) (m' : K → Option V), m' k = some (f none).1 →
+      (∀ x ∈ l, IsGetOrCreate k x) → Legal m' l →
+      (∀ x ∈ l, ∃ f' co', x.op = .dc k f' true co' ∧ x.res = .val (some (f none).1) (!co')) ∧
+      specFold m' l k = some (f none).1 := by
+    intro l
+    induction l with
+    | nil => intro m' hm _ _; exact ⟨by simp, hm⟩
+    | cons x xs ih =>
+      intro m' hm hx hl
+      obtain ⟨f', co', hop', -⟩ := hx x (List.mem_cons_self ..)
+      simp only [Legal] at hl
+      obtain ⟨hr, hl'⟩ := hl
+      have h2 : specStep m' x.op = (fun k' => if k' = k then some (f none).1 else m' k', .val (some (f none).1) (!co')) := by
+        rw [hop']; simp [specStep, specDc, hm]
+      rw [h2] at hr hl'
+      have hm2 : (fun k' => if k' = k then some (f none).1 else m' k') k = some (f none).1 := by simp
+      obtain ⟨ih1, ih2⟩ := ih _ hm2 (fun y hy => hx y (List.mem_cons_of_mem _ hy)) hl'
+      refine ⟨?_, ?_⟩
+      · intro y hy
+        rcases List.mem_cons.mp hy with rfl | hy
+        · exact ⟨f', co', hop', hr.symm⟩
+        · exact ih1 y hy
+      · simp only [specFold, h2]; exact ih2
+  have hm1 : (fun k' => if k' = k then some (f none).1 else m k') k = some (f none).1 := by simp
+  obtain ⟨r1, r2⟩ := key rest _ hm1 (fun y hy => hall y (List.mem_cons_of_mem _ hy)) hrest
+  exact ⟨r1, by simp only [specFold, h1]; exact r2⟩
+
+end racers
 
 end Props.C05
